@@ -411,7 +411,7 @@ pub fn explore_walk<A: Automaton>(
 
 /// I-contract (C16): every state reachable from either start state through
 /// `next_state` with any byte and either anchoring argument is valid.
-pub fn explore_contract<A: Automaton>(a: &A, npats: usize, st: &mut Stats) -> Result<(), Finding> {
+pub fn explore_contract<A: Automaton>(a: &A, npats: usize, expect_start: [bool; 2], st: &mut Stats) -> Result<(), Finding> {
     use std::panic::{catch_unwind, AssertUnwindSafe};
     let fail = |what: &'static str, w: &[u8], anchored: bool, detail: String| Finding { what, witness: w.to_vec(), anchored, detail };
     let mut seen: HashMap<u32, ()> = HashMap::new();
@@ -421,8 +421,15 @@ pub fn explore_contract<A: Automaton>(a: &A, npats: usize, st: &mut Stats) -> Re
         let anc = if anchored { Anchored::Yes } else { Anchored::No };
         match catch_unwind(AssertUnwindSafe(|| a.start_state(anc))) {
             Err(p) => return Err(fail("contract-panic", &[], anchored, format!("start_state panicked: {}", crate::aut::panic_msg(&p)))),
-            Ok(Err(_)) => {}
+            Ok(Err(_)) => {
+                if expect_start[anchored as usize] {
+                    return Err(fail("contract-start-state", &[], anchored, format!("start_state(anchored={}) failed although this anchoring mode is supported by the configuration", anchored)));
+                }
+            }
             Ok(Ok(s)) => {
+                if !expect_start[anchored as usize] {
+                    return Err(fail("contract-start-state", &[], anchored, format!("start_state(anchored={}) succeeded although this anchoring mode is not supported by the configuration", anchored)));
+                }
                 supported += 1;
                 if seen.insert(s.as_u32(), ()).is_none() {
                     q.push_back((s, vec![], anchored));
